@@ -648,23 +648,30 @@ class with_taylor:
 
 def _z3_proves_assumed(c, p, d):
     """z3: precondition + the path's NON-assumed decisions + negated claim is unsatisfiable"""
+    # (bounded effort: at most ~2 s of z3 per path context, 1 s per query - bundles of 3D groups have thousands of paths)
+    if getattr(c, "_assume_z3_s", 0.0) > 2.0:
+        return False
     try:
         from engine import smt
-        z = smt.Z3Ctx(c.alg, 3000)
-        cs = []
-        for dd in c.path.decisions:
-            if dd.is_const == 2:
-                continue
-            e = z.expr(c.alg.nf(c.alg.P(dd.b) - c.alg.P(dd.a)))
-            if dd.rel == "lt":
-                cs.append(e > 0 if dd.val else e <= 0)
-            else:
-                cs.append(e == 0 if dd.val else e != 0)
+        if getattr(c, "_assume_ctx", None) is None:
+            z = smt.Z3Ctx(c.alg, 1000)
+            cs = []
+            for dd in c.path.decisions:
+                if dd.is_const == 2:
+                    continue
+                e = z.expr(c.alg.nf(c.alg.P(dd.b) - c.alg.P(dd.a)))
+                if dd.rel == "lt":
+                    cs.append(e > 0 if dd.val else e <= 0)
+                else:
+                    cs.append(e == 0 if dd.val else e != 0)
+            c._assume_ctx = (z, cs)
+        z, cs = c._assume_ctx
         e = z.expr(p)
         neg = (e <= 0) if d.val else (e > 0)
         gens = z.gens_of([p])
         base = z.base_constraints(c.extra_facts_z3(z), without_inverses=True)
         r, model, dt = z.check(base + cs + [neg])
+        c._assume_z3_s = getattr(c, "_assume_z3_s", 0.0) + dt
         return r == "unsat"
     except Exception:
         return False
